@@ -555,7 +555,8 @@ func (e *Engine) genFunction(fn *ssa.Function) (fc *fnCtx, err error) {
 			if label == "" {
 				label = fmt.Sprintf("a%d", i+1)
 			}
-			if en.Case != "" && "@case:"+en.Case != where {
+			if en.Case != "" && "@case:"+en.Case != where && !fr.inCase(rr.instr.Pos(), en.Case) {
+				// (the clause of an arm also covers the returns of switches nested inside that arm)
 				continue
 			}
 			// a body-only assertion may mention locals that do not exist on every return path: it is checked
@@ -2381,4 +2382,30 @@ func (fr *frame) lexObject(name string) types.Object {
 		return v
 	}
 	return nil
+}
+
+
+// inCase: the position lies in a switch arm whose case list has the given (normalised) text, at any nesting depth.
+func (fr *frame) inCase(pos token.Pos, text string) bool {
+	e := fr.fc.e
+	if !pos.IsValid() {
+		return false
+	}
+	f := e.files[e.fset.Position(pos).Filename]
+	if f == nil {
+		return false
+	}
+	path, _ := astutil.PathEnclosingInterval(f, pos, pos)
+	for _, n := range path {
+		if cc, ok := n.(*ast.CaseClause); ok {
+			t := "default"
+			if len(cc.List) > 0 {
+				t = e.sourceText(cc.List[0].Pos(), cc.List[len(cc.List)-1].End())
+			}
+			if strings.Join(strings.Fields(t), "") == text {
+				return true
+			}
+		}
+	}
+	return false
 }
